@@ -156,5 +156,9 @@ def run(chk, prog):
     chk.check(ok, "R4", A.loc(fn, {"line": cp.line}),
               "the profile transformed for spectrum[n] is row n of the X projection, N values placed at the start of the padded buffer (source %s -> row %s)" % (cp.value, row),
               "updateCSR:profile-source:%s" % (cp.value,))
+    # ---- R5: "one and the same bunch profile": the transform inputs hold the current profile only (no content left by an earlier
+    # operation on the same object) -- the must-rewrite analysis decided under C18 R1; re-evaluated here
+    from .common import reeval
+    reeval(chk, prog, "C18", lambda i: i["rule"] == "R1", "R5", "R5-current-profile-only", 6)
     chk.notes.append("C07: non-negativity of spectrum and intensity by a sign lattice over the extracted expressions (assuming Re Z >= 0), "
                      "cutoff factor in [0,1), index pairing. NOT decided: the Parseval equality with the wake-loss sum.")
